@@ -72,9 +72,19 @@ pub fn c15(ctx: &mut Ctx, tier: &str, r: &mut Rng, js: &[Value], _reqs: &[String
             let seed = v.get("perturb_seed").and_then(|x| x.as_u64()).unwrap_or(0);
             let start = v.get("start_rd").and_then(|x| x.as_i64()).unwrap_or(rd_of(2023, 1, 1));
             let at = v.get("day").and_then(DayCase::from_json);
-            if !one_at(ctx, w as usize, d, t as usize, seed, start, at.as_ref()) {
-                ctx.finish(json!({"watchdog": "fired"}));
-                return;
+            // the property quantifies over schedules and a perturbation seed does not fix the OS's
+            // scheduling: a recorded case is re-run under the recorded seed and fifteen derived ones,
+            // stopping at the first failure
+            for k in 0..16u64 {
+                let before = ctx.fails;
+                let sk = if k == 0 { seed } else { seed.wrapping_mul(6364136223846793005).wrapping_add(k) | 1 };
+                if !one_at(ctx, w as usize, d, t as usize, sk, start, at.as_ref()) {
+                    ctx.finish(json!({"watchdog": "fired"}));
+                    return;
+                }
+                if ctx.fails > before {
+                    break;
+                }
             }
         }
     }
